@@ -19,6 +19,7 @@
 //   G ok|bad hash            result of Book::getPosition on one node (sanity check)
 //   S n  followed by n node lines:  hash depth nm ecw ecb pew peb move score time state
 //                                   nch (move child)* npar (move parent)*
+// Mode "negate": prints BookNode::negateScore(s) for every 16-bit s.
 // Mode "cyclic": imports one game with 104 reversible plies (half-move clock >= 100 makes the
 // book hash periodic) in a forked child and reports whether the process survives.
 #include "bookbuild.hpp"
@@ -528,5 +529,10 @@ std::string BookBuildTest::tmpFile;
 int main(int argc, char** argv) {
     if (argc > 1 && std::string(argv[1]) == "cyclic")
         return BookBuildTest::cyclic();
+    if (argc > 1 && std::string(argv[1]) == "negate") {      // table of BookNode::negateScore on all S16 values
+        for (int sc = -32768; sc <= 32767; sc++)
+            printf("%d %d\n", sc, BookNode::negateScore(sc));
+        return 0;
+    }
     return BookBuildTest::run();
 }
